@@ -9,7 +9,7 @@ import os
 import re
 import tomllib
 
-from .common import LOCATOR, REPO, SPEC, UNITS, Undecided, read, run, sha
+from .common import LOCATOR, REPO, SPEC, UNITS, Undecided, read, rmtree, run, scratch, sha
 
 G_OPEN, G_CLOSE = "/*@G{*/", "/*@G}*/"
 G_RE = re.compile(re.escape(G_OPEN) + r".*?" + re.escape(G_CLOSE), re.S)
@@ -22,6 +22,53 @@ def locate(relfile, root=None):
     path = os.path.join(root, relfile)
     if not os.path.exists(path):
         raise Undecided(f"lost anchor: file {relfile} does not exist")
+    return _locate_path(path, relfile)
+
+
+def desugar(loc, relfile, fn_paths, rules):
+    """Engine V-D: apply the closed list of mechanical desugarings (DESIGN.md 2.1b) to the named functions of a
+    file and re-locate the rewritten text.  Returns (new_loc, records)."""
+    src = loc["src"]
+    rewrites = []
+    records = []
+    for fp in fn_paths:
+        for it in loc["by_path"].get(fp, []):
+            for v in it.get("vd", []):
+                if v["rule"] not in rules:
+                    continue
+                if v["rule"] == "D7":
+                    recv = src[v["recv"][0]:v["recv"][1]]
+                    stmts = src[v["block"][0] + 1:v["tail"][0]]
+                    tail = src[v["tail"][0]:v["tail"][1]]
+                    rest = src[v["tail"][1]:v["block"][1]]
+                    if rest.strip() not in ("", ";"):
+                        raise Undecided(f"{fp}: D7 candidate has trailing text after the tail expression")
+                    new = ("match " + recv + " {\n Ok(pv_ok_value) => Ok(pv_ok_value),\n Err(_) => {" + stmts
+                           + "Err(" + tail + ")\n}\n}")
+                    rewrites.append((v["call"][0], v["call"][1], new))
+                    records.append({"fn": fp, "rule": "D7 RECV.map_err(|_| { S; E })  =>  match RECV { Ok(v) => Ok(v), Err(_) => { S; Err(E) } }",
+                                    "original": src[v["call"][0]:v["call"][1]], "rewritten": new})
+    if not rewrites:
+        raise Undecided(f"{relfile}: desugaring requested for {fn_paths} but no candidate of rules {rules} found")
+    rewrites.sort(reverse=True)
+    last = len(src) + 1
+    for a, b, new in rewrites:
+        if b > last:
+            raise Undecided(f"{relfile}: nested desugaring candidates are not supported")
+        src = src[:a] + new + src[b:]
+        last = a
+    d = scratch("vd")
+    try:
+        tmp = os.path.join(d, os.path.basename(relfile))
+        with open(tmp, "w", encoding="utf-8") as f:
+            f.write(src)
+        new_loc = _locate_path(tmp, relfile + " (desugared)")
+    finally:
+        rmtree(d)
+    return new_loc, records
+
+
+def _locate_path(path, relfile):
     src_bytes = open(path, "rb").read()
     key = (path, sha(src_bytes))
     if key in _loc_cache:
@@ -54,6 +101,10 @@ def locate(relfile, root=None):
                 if k in ("start", "end", "item_start", "sig_start", "sig_end", "ret", "where", "body_open",
                          "body_close", "loops", "container"):
                     it[k] = conv(it[k])
+            for v in it.get("vd", []):
+                for k in list(v.keys()):
+                    if k != "rule":
+                        v[k] = conv(v[k])
     data["src"] = src
     items = {}
     for it in data["items"]:
@@ -290,10 +341,15 @@ class Unit:
         fns = []
         notes = []
         deviations = []
+        desugared = []
         for item in self.cfg.get("item", []):
             relfile = item["file"]
             loc = locate(relfile, self.root)
             iid = item["id"]
+            if item.get("desugar"):
+                targets = ([item["path"] + "::" + m for m in item["methods"]] if "methods" in item else [item["path"]])
+                loc, recs = desugar(loc, relfile, targets, item["desugar"])
+                desugared += recs
             if "methods" in item:
                 header_mode = item.get("header", "repo")
                 cont = find_item(loc, relfile, item["path"]) if header_mode == "repo" else None
@@ -398,5 +454,6 @@ class Unit:
                               "has_cfg": "cfg(" in ef.dropped_attrs})
                 if re.search(r"#\[cfg\(", ef.dropped_attrs):
                     raise Undecided(f"{ef.key}: carries a #[cfg] attribute; extraction would change its meaning")
-        meta = {"functions": fns, "notes": notes, "deviations": deviations, "text_sha": sha(text)}
+        meta = {"functions": fns, "notes": notes, "deviations": deviations, "desugared": desugared,
+                "text_sha": sha(text)}
         return text, meta
